@@ -7,7 +7,7 @@ P=$1; K=$2; DEST=$3; RX=$4
 WT=/tmp/wt/$P; M=$WT/_mut/m$K
 cd $WT || exit 2
 git checkout -q -- . ; rm -f $DEST/*_demo_test.go
-DEMO=$(ls $M/*demo_test.go $M/zz_mut_*_test.go 2>/dev/null | head -1); ALLT=$(ls $M/*_test.go)
+DEMO=$(ls $M/*demo_test.go $M/zz_mut_*_test.go $M/zz_c19_m1_iblt*_test.go $M/zz_c19_m2*_test.go 2>/dev/null | head -1); ALLT=$(ls $M/*_test.go | grep -v transactionset)
 res() { echo "$P-m$K: $*"; }
 git apply --check $M/patch.diff || { res "patch does not apply"; exit 1; }
 git -C /repo apply --check $M/patch.diff 2>/dev/null && ONHEAD=yes || ONHEAD=no
